@@ -306,6 +306,7 @@ struct scanner_s {
     void *char_source;
     read_chars_f read_func;
     int at_eof;
+    int cr_pending;         /* nonzero if the most recently buffered character was a CR (already converted to LF) */
 
     /* cif version */
     int cif_version;
